@@ -1130,9 +1130,11 @@ func runC19(c *Ctx) {
 		img := c19GenImage(NewRng(7), 4, 4)
 		c19RunSample(c, &c19SampleCase{img: img, dimX: 2, dimY: 1, to: []float64{0, 0, 2, 0, 2, 1, 0, 1},
 			from: []float64{0, 5, 4, 1, 4, 2, 0, 6}, fam: "sheared", tag: "corpus-D8"})
-		// inner cell centres left of / above the image while both row ends are inside (twisted transform)
-		c19RunSample(c, &c19SampleCase{img: c19GenImage(NewRng(1), 8, 8), dimX: 5, dimY: 1, to: []float64{0, 0, 5, 0, 5, 1, 0, 1},
-			from: []float64{4, 4, 6, 4, 2, 6, 0, 6}, fam: "perspective", tag: "corpus-twisted"})
+		// strong perspective (the QR detector's 21-module call): inner cell centres map left of / above the image while
+		// the row ends are inside; before the repair they were read as white instead of NotFoundException
+		c19RunSample(c, &c19SampleCase{img: c19BlackImage(40, 32), dimX: 21, dimY: 21,
+			to:   []float64{3.5, 3.5, 17.5, 3.5, 17.5, 17.5, 3.5, 17.5},
+			from: []float64{29.8125, 11.8125, 10.25, 7.0625, 10.1875, 7.8125, 23.1875, 24.9375}, fam: "perspective", tag: "corpus-negative-index"})
 	}
 
 	// ---- transforms ----
